@@ -79,6 +79,11 @@ def run(ctx):
                         continue
                     stim.append({"t": len(stim) + 1, "maxr": maxr, "at": 2, "steps": pre + [{"a": "race", "t": t, "y": y}, {"a": "tick", "t": t + 2}, {"a": "tick", "t": t + 4}]})
                     ctx.cov["histories_sweep_races_answer"] = ctx.cov.get("histories_sweep_races_answer", 0) + 1
+        # a copy that cannot be written: the first retransmission fails at the network; later copies go out, the answer completes the call
+        if maxr >= 2:
+            for tail in ([{"a": "piggy", "t": 0}], [{"a": "tick", "t": 5}, {"a": "piggy", "t": 0}], [{"a": "tick", "t": 5}, {"a": "ack", "t": 0}, {"a": "sep", "t": 0}], [{"a": "tick", "t": 5}, {"a": "tick", "t": 7}, {"a": "tick", "t": 9}]):
+                stim.append({"t": len(stim) + 1, "maxr": maxr, "at": 2, "steps": [{"a": "tickfail", "t": 3}] + tail})
+                ctx.cov["histories_with_a_copy_that_cannot_be_written"] = ctx.cov.get("histories_with_a_copy_that_cannot_be_written", 0) + 1
         # the same parameters as configured through the options (option plumbing): the library's own client
         # (udp.Dial, options.WithTransmission) and a server-side connection of a real udp server, over loopback sockets
         plain = [h for h in direct if all(a["a"] != "queue" for a in h)]
